@@ -134,12 +134,17 @@ def render(prog, plain=False, pkg="vfp"):
                 parts.append(render_class(k, v))
             for k, v in prog.get("bindings", {}).items():  # name = other name (e.g. cfg = C1)
                 parts.append("%s = %s\n" % (k, v))
-        order = prog.get("order") or [f["name"] for f in funcs]
-        order = [n for n in order if any(f["name"] == n for f in funcs)] + [f["name"] for f in funcs if f["name"] not in order]
+        stmts = prog.get("stmts", {}) if mod == "a" else {}
+        order = prog.get("order") or ([f["name"] for f in funcs] + list(stmts))
+        order = [n for n in order if any(f["name"] == n for f in funcs) or n in stmts] + \
+                [f["name"] for f in funcs if f["name"] not in order] + [k for k in stmts if k not in order]
         used_alias = {c["target"] for f in prog["funcs"] for c in f["calls"] if c["form"] == "alias"}
         used_wrap = {c["target"] for f in prog["funcs"] for c in f["calls"] if c["form"] == "wrapper"}
         tail = []
         for n in order:
+            if n in stmts:
+                parts.append(stmts[n] + "\n")
+                continue
             f = next(x for x in funcs if x["name"] == n)
             parts.append("\n" + render_func(f, prog, plain))
             if n in used_alias:
